@@ -271,7 +271,7 @@ func (rp *HTTPReverseProxy) connectHandler(rw http.ResponseWriter, req *http.Req
 		return
 	}
 
-	client, _, err := hj.Hijack()
+	client, bufrw, err := hj.Hijack()
 	if err != nil {
 		rw.WriteHeader(http.StatusInternalServerError)
 		return
@@ -284,6 +284,12 @@ func (rp *HTTPReverseProxy) connectHandler(rw http.ResponseWriter, req *http.Req
 		return
 	}
 	_ = req.Write(remote)
+	// bytes the client sent right behind the CONNECT head are already in the server's read buffer
+	if n := bufrw.Reader.Buffered(); n > 0 {
+		if early, perr := bufrw.Reader.Peek(n); perr == nil {
+			_, _ = remote.Write(early)
+		}
+	}
 	go libio.Join(remote, client)
 }
 
